@@ -1,12 +1,28 @@
 import TflModel.Model.Wire
 import TflModel.Driver.Linear
 import TflModel.Driver.Lattice
+import TflModel.Driver.LatticeEval
+import TflModel.Driver.PwlProj
+import TflModel.Driver.PwlEval
+import TflModel.Driver.Kfl
+import TflModel.Driver.Regularizers
+import TflModel.Driver.Ensembles
+import TflModel.Driver.Keypoints
+import TflModel.Driver.Asserts
 /-! Line-protocol driver: one op per input line, one reply line per op.
 Imports only Mathlib-free `Model/*` and `Driver/*` modules, so it links as a native executable. -/
 open Tfl Tfl.Wire
 
 def handlers : List (String × Handler) :=
-  Tfl.Driver.Linear.handlers ++ Tfl.Driver.Lattice.handlers
+  Tfl.Driver.Linear.handlers ++ Tfl.Driver.Lattice.handlers ++
+  Tfl.Driver.LatticeEval.handlers ++
+  Tfl.Driver.PwlProj.handlers ++
+  Tfl.Driver.PwlEval.handlers ++
+  Tfl.Driver.Kfl.handlers ++
+  Tfl.Driver.Regularizers.handlers ++
+  Tfl.Driver.Ensembles.handlers ++
+  Tfl.Driver.Keypoints.handlers ++
+  Tfl.Driver.Asserts.handlers
 
 def handleLine (line : String) : String :=
   match (line.trimAscii.toString).splitOn " " with
